@@ -388,6 +388,12 @@ def gen(run):
         bits = rand_bits(rng, rng.choice([0, 7, 16, 64, 200]))
         for o in orders:
             yield "huffl %s %s %d" % (",".join("%d:%d" % p for p in o) or "-", bits or "-", len(bits) + 1), "listing-order"
+    # the same decoding through a small bit buffer (16..64 bytes: a refill every few symbols, long code words straddling it)
+    for _ in range(40 if quick else 1200):
+        size = rng.choice([19, 40, 256, 280])
+        v = random_vector(rng, size, "complete") if rng.random() < .6 else list(range(1, 16)) + [15]
+        nb = rng.choice([600, 2000, 6000])
+        yield "huffc %d %s" % (rng.choice([16, 17, 24, 32, 33, 64]), huff_line(v, rand_bits(rng, nb)).split(" ", 1)[1]), "small-buffer"
     # arbitrary tables
     for _ in range(300 if quick else 6000):
         t = rand_table(rng)
@@ -399,6 +405,8 @@ def gen(run):
 # ------------------------------------------------------------------------------------------------ comparison / oracle
 def _parse(line):
     t = line.split()
+    if t[0] == "huffc":
+        t = ["huff"] + t[2:]
     kind, a, bits, n = t[0], t[1], ("" if t[2] == "-" else t[2]), int(t[3])
     if kind == "huff":
         arg = [] if a == "-" else [int(x) for x in a.split(",")]
@@ -438,9 +446,9 @@ def oracle(run, pairs):
     out = []
     spec_lines, idx = [], {}
     for k, (line, impl) in enumerate(pairs):
-        if line.startswith("huff "):
+        if line.startswith(("huff ", "huffc ")):
             idx[k] = "o%d" % len(spec_lines)
-            spec_lines.append("%s huffspec %s" % (idx[k], line[5:]))
+            spec_lines.append("%s huffspec %s" % (idx[k], line[5:] if line.startswith("huff ") else line.split(" ", 2)[2]))
     ext = run.driver(spec_lines) if spec_lines and run.driver_bin else {}
     for k, (line, impl) in enumerate(pairs):
         kind, arg, bits, n = _parse(line)
